@@ -25,7 +25,14 @@ RULE = ('families (disjoint): single = per option, every 4-tuple (file1,file2,fi
         'ConfigManager driven through every history of <= 3 (quick; thorough 4) '
         'steps from a menu of read(file) / updateFromDict(parsed argv) / config[sec][key]=v steps on string and '
         'list options holding %(other)s references and on the options they name, with a read-back of all options '
-        'after construction and after every step, each compared with the model; doc = documented defaults and '
+        'after construction and after every step, each compared with the model; dictws = per dictionary option the '
+        'inline k=v,k=v form with every placement of blanks (before/after the inner =, before/after the comma; '
+        'thorough also leading/trailing, tab and double blank) as lowest/middle/top file x later file (inline or '
+        'own line) x command-line override of the same key; syntax = per option further spellings (lists with '
+        'commas and quotes, negative numbers as separate arguments, options given twice ...) alone / above / '
+        'below another file x command line; reject = per option malformed values in a file or on the command line '
+        'in every layer position must end client.main with an error; api = ConfigSection.get, duplicate '
+        'section/option, options added through the API, missing references, packaged rc file, plastex() entry; doc = documented defaults and '
         'the pinned option table.  Each case runs plasTeX.client.main on printed files/argv and compares the '
         'read-back of all options with the model.  non-trivial = at least one source sets a value (reread: at least '
         'one step); distinct = '
@@ -213,8 +220,24 @@ def devsets():
 def expected(case, dev=0):
     try:
         return M.Model(case.get('synth', False), dev).apply_case(case).snapshot_fast()
+    except M.Rejected:
+        return 'rejected'
     except M.ModelError as e:
         return 'model-error:%s' % e
+
+
+def expected_without_malformed(case):
+    c = json.loads(json.dumps(case))
+    for layer in c.get('files', []):
+        if layer and layer.get('ops'):
+            layer['ops'] = [op for op in layer['ops'] if not (op.get('v') and op['v'][0] == 'x')]
+    c['argv'] = [op for op in c.get('argv', []) if op['v'][0] != 'X']
+    return expected(c, 0)
+
+
+def _is_rejection(obs):
+    """client.main ended with an exception / argparse error instead of handing a configuration to run()."""
+    return isinstance(obs, str) and obs.startswith('raises:') and obs != 'raises:run-not-called'
 
 
 # -- documented defaults / pinned table -------------------------------------------------------
@@ -278,6 +301,8 @@ def judge(case, scratch=None):
         return judge_doc(case)
     if case.get('fam') == 'reread':
         return judge_reread(case, scratch)
+    if case.get('fam') == 'api':
+        return judge_api(case)
     own = scratch is None
     if own:
         scratch = Scratch()
@@ -289,8 +314,12 @@ def judge(case, scratch=None):
             scratch.close()
     LAST_OBS = obs
     exp = expected(case, 0)
-    if obs == exp:
+    if obs == exp or (exp == 'rejected' and _is_rejection(obs)):
         return 'ok', [], None, None, ''
+    if exp == 'rejected':
+        return 'violation', [], 'rejected (an exception or a command-line error)', \
+            _diff(expected_without_malformed(case), obs)[1] if isinstance(obs, dict) else obs, \
+            'a malformed value was accepted; observed = options that differ from the same input without it'
     for dev, names in devsets():
         if obs == expected(case, dev):
             e, o = _diff(exp, obs)
@@ -305,7 +334,7 @@ def replay(case):
     try:
         if case.get('fam') == 'reread':
             detail = '%s | history=%s' % (detail, json.dumps(print_history(case)))
-        elif case.get('fam') != 'doc':
+        elif case.get('fam') not in ('doc', 'api'):
             argv, texts = print_case(case, scratch)
             detail = '%s | argv=%s | files=%s' % (detail, json.dumps([a.replace(scratch.dir, '<dir>') for a in argv]),
                                                  json.dumps(texts))
@@ -733,7 +762,268 @@ def judge_reread(case, scratch=None):
                                    '(value set last wins; references are expanded with the CURRENT values)')
 
 
-GENS = {'reread': gen_reread, 'single': gen_single, 'shapes': gen_shapes, 'pairs': gen_pairs, 'interp': gen_interp,
+# -- families 'dictws', 'syntax', 'reject': file / command-line SYNTAX of every option type, in every layer ----
+def _layerings_file(row, X, synth):
+    """X (a file-side value) alone, above and below another file, each with and without a command line."""
+    o = [row[0], row[1]]
+    v0, v1, c = pair_file_value(row, 0, synth), pair_file_value(row, 1, synth), pair_cli_value(row)
+    for files in ([X], [v0, X], [X, v1]):
+        for cli in (None, c):
+            yield [_flayer([{'o': o, 'v': fv}]) for fv in files], ([] if cli is None else [{'o': o, 'v': cli}])
+
+
+def _layerings_cli(row, X, synth):
+    o = [row[0], row[1]]
+    v0, v1 = pair_file_value(row, 0, synth), pair_file_value(row, 1, synth)
+    for files in ([], [v0], [v0, v1]):
+        yield [_flayer([{'o': o, 'v': fv}]) for fv in files], [{'o': o, 'v': X}]
+
+
+def syntax_menu(row, tier):
+    """(file-side values, cli-side values) that the 'single' menus do not contain."""
+    s, k, t, d, en, dis = row
+    if t == 'bool':
+        return [['b', b, st] for st in ('YesNo', 'TRUEFALSE', 'OnOFF') for b in (True, False)], []
+    if t == 'int':
+        return [['i', -7, 'plain'], ['i', 1234567890123, 'plain']], [['S', [-4], 'sp', 0], ['S', [-5, 6], 'sp', 0], ['S', [3, -8], 'eq', 0]]
+    if t == 'float':
+        return [['f', -2.25, 'repr'], ['f', 0.001, 'exp'], ['f', -4.0, 'int']], [['S', [-2.5], 'sp', 0], ['S', [5], 'sp', 0], ['S', [1.5, -0.75], 'sp', 0]]
+    if t == 'str':
+        return [['s', 'a, b; c'], ['s', '"quoted" \'x\''], ['s', '= leading equals'], ['s', 'tab\there']], \
+               [['S', ['a=b,c'], 'eq', 0], ['S', ['two words', 'last one'], 'sp', 0], ['S', ['"q"'], 'sp', 0]]
+    if t == 'list':
+        return [['l', ['a,b', 'c d'], 'dq'], ['l', ['say "hi"', 'x'], 'sq'], ['l', ['w1', 'w2', 'w 3'], 'wide'],
+                ['l', ["it's", 'y'], 'dq']], \
+               [['L', [['a,b']]], ['L', [['x y', 'z'], []]], ['L', [['m'], ['m'], ['n']]]]
+    v = _entry_vals(t)
+    if t == 'links':
+        return [['d', [['ka-title', 'Two Words'], ['ka-url', 'http://h/p?q=1&r=2']], 'named']], \
+               [['K', [['ka', 'T1'], ['ka', 'T2']]], ['K', [['ka', 'U1', 'T1'], ['ka', 'T2']]]]
+    if t == 'dict_str':
+        return [['d', [['ka', 'a b=c'], ['ka', v[1]]], 'named']], \
+               [['D', [['ka', v[2]], ['ka', v[3]]]], ['D', [['k.b', 'a=b']]]]
+    neg = -v[0]                                     # dict_int / dict_float: negative entries, key given twice
+    return [['d', [['ka', neg], ['ka', v[1]]], 'named']], \
+           [['D', [['ka', v[2]], ['ka', v[3]]]], ['D', [['ka', neg]]]]
+
+
+def gen_syntax(block, tier):
+    _, synth, oi = block
+    row = M.schema(synth)[oi]
+    fvals, cvals = syntax_menu(row, tier)
+    for X in fvals:
+        for files, argv in _layerings_file(row, X, synth):
+            yield {'fam': 'syntax', 'synth': synth, 'files': files, 'argv': argv}
+    for X in cvals:
+        for files, argv in _layerings_cli(row, X, synth):
+            yield {'fam': 'syntax', 'synth': synth, 'files': files, 'argv': argv}
+
+
+def reject_menu(row, synth):
+    s, k, t, d, en, dis = row
+    if t == 'bool':
+        f = [['x', None, 'maybe'], ['x', None, ''], ['x', None, '2'], ['x', None, 'yes no']]
+        c = [['X', ['@=yes']]]
+        if not dis:
+            c.append(['X', ['--no-' + en[0][2:]]])
+        return f, c
+    if t == 'int':
+        return [['x', None, 'abc'], ['x', None, '1.5'], ['x', None, ''], ['x', None, '1 2']], [['X', ['@', 'abc']], ['X', ['@', '1.5']], ['X', ['@']]]
+    if t == 'float':
+        return [['x', None, 'abc'], ['x', None, ''], ['x', None, '1,5']], [['X', ['@', 'x']], ['X', ['@']]]
+    if t == 'str':
+        return [], [['X', ['@']]]
+    if t == 'list':
+        return [['x', None, '"abc'], ['x', None, "a 'b c"]], []
+    first = M.first_dict_option(s, synth) == k
+    f = [['x', None, 'novalue'], ['x', None, 'ka=1,novalue']]
+    c = [['X', ['@', 'ka']]]
+    if t in ('dict_int', 'dict_float'):
+        f.append(['x', None, 'ka=notnum'])
+        if first:
+            f.append(['x', 'ka', 'notnum'])
+        c.append(['X', ['@', 'ka', 'notnum']])
+    if t == 'dict_int':
+        f.append(['x', None, 'ka=1.5'])
+    if t == 'links':
+        c = [['X', ['@', 'ka']], ['X', ['@', 'a', 'b', 'c', 'd']]]
+    else:
+        c.append(['X', ['@', 'a', '1', '2']])
+    return f, c
+
+
+def gen_reject(block, tier):
+    _, synth, oi = block
+    row = M.schema(synth)[oi]
+    fvals, cvals = reject_menu(row, synth)
+    for X in fvals:
+        for files, argv in _layerings_file(row, X, synth):
+            yield {'fam': 'reject', 'synth': synth, 'files': files, 'argv': argv}
+    for X in cvals:
+        for files, argv in _layerings_cli(row, X, synth):
+            yield {'fam': 'reject', 'synth': synth, 'files': files, 'argv': argv}
+    if oi in (0, len(M.SCHEMA)):            # once per configuration: a flag that no option declares
+        yield {'fam': 'reject', 'synth': synth, 'files': [], 'argv': [{'o': [row[0], row[1]], 'v': ['X', ['--zz-no-such-flag']]}]}
+
+
+def dictws_blanks(tier):
+    return [' '] if tier == 'quick' else [' ', '\t', '  ']
+
+
+def gen_dictws(block, tier):
+    """The inline k=v,k=v form under the option's own name with blanks at every placement, in the lowest,
+    a middle and the top file, combined with overrides of the same key by a later file / the command line."""
+    _, synth, oi = block
+    row = M.schema(synth)[oi]
+    s, k, t, d, en, dis = row
+    o = [s, k]
+    v = _entry_vals(t)
+    first = M.first_dict_option(s, synth) == k
+    ka, kb = ('ka-title', 'kb-url') if t == 'links' else ('ka', 'kb')
+    lowers = [None, ['d', [[ka, v[4]], ['kc', v[5]]], 'named']] + ([['d', [[ka, v[6]]], 'routed']] if first else [])
+    uppers = [None, ['d', [[ka, v[2]]], 'named']] + ([['d', [[ka, v[3]]], 'routed']] if first else [])
+    clis = [None, ['K', [['ka', 'Tcli']]] if t == 'links' else ['D', [[ka, v[7]]]]]
+    places = 4 if tier == 'quick' else 6
+    for b in dictws_blanks(tier):
+        for bits in itertools.product((0, 1), repeat=places):
+            if not any(bits):
+                if b != ' ':
+                    continue        # the compact form: once
+            be, ae, bc, ac = [b if x else '' for x in bits[:4]]
+            lead, trail = (b if bits[4] else '', b if bits[5] else '') if places == 6 else ('', '')
+            X = ['d', [[ka, v[0]], [kb, v[1]]], 'named', [lead, be, ae, bc, ac, trail]]
+            for lo in lowers:
+                for up in uppers:
+                    for cli in clis:
+                        files = [_flayer([{'o': o, 'v': fv}]) for fv in (lo, X, up) if fv is not None]
+                        yield {'fam': 'dictws', 'synth': synth, 'files': files,
+                               'argv': [] if cli is None else [{'o': o, 'v': cli}]}
+
+
+# -- family 'api': the rest of the public configuration API ----------------------------------------------------
+API_CASES = ['get', 'duplicate_section', 'duplicate_option', 'new_option', 'missing_reference', 'load_config_files',
+             'plastex_entry', 'read_string_and_list']
+
+
+def gen_api(block, tier):
+    for what in API_CASES:
+        yield {'fam': 'api', 'what': what}
+
+
+def judge_api(case):
+    """-> (verdict, fids, expected, observed, detail); every expectation is spelled out literally here."""
+    global LAST_OBS
+    import plasTeX.client as cl
+    from plasTeX.Config import defaultConfig
+    from plasTeX import ConfigManager as CM
+    what = case['what']
+    so, se = sys.stdout, sys.stderr
+    sys.stdout = sys.stderr = _Null()
+    scratch = Scratch()
+    exp = obs = None
+    try:
+        with core.time_limit(20.0):
+            if what == 'get':
+                config = defaultConfig()
+                cl.collect_renderer_config(config)
+                m = M.Model(False).snapshot()
+                exp = dict(m)
+                exp.update({'general/zz-missing': ['NoneType', 'None'], 'general/zz-missing|7': ['int', 7]})
+                obs = {'%s/%s' % (sn, k): M.enc(config[sn].get(k)) for sn in config for k in config[sn].keys()}
+                obs['general/zz-missing'] = M.enc(config['general'].get('zz-missing'))
+                obs['general/zz-missing|7'] = M.enc(config['general'].get('zz-missing', 7))
+            elif what == 'duplicate_section':
+                config = defaultConfig()
+                exp = 'ValueError'
+                try:
+                    config.addSection('files')
+                    obs = 'accepted'
+                except ValueError:
+                    obs = 'ValueError'
+            elif what == 'duplicate_option':
+                config = defaultConfig()
+                exp = ['ValueError', ['str', 'default']]
+                try:
+                    config['general']['theme'] = CM.StringOption('again', '--theme2', 'other')
+                    r = 'accepted'
+                except ValueError:
+                    r = 'ValueError'
+                obs = [r, M.enc(config['general']['theme'])]
+            elif what == 'new_option':
+                # an option added through the documented API takes part in files, command line and references
+                config = defaultConfig()
+                sec = config.addSection('zzapi')
+                sec['zz-new'] = CM.StringOption('new', '--zz-new', 'n0')
+                sec['zz-count'] = CM.IntegerOption('count', '--zz-count -Z', 1)
+                from argparse import ArgumentParser
+                parser = ArgumentParser('plasTeX')
+                config.registerArgparse(parser)
+                config.read([scratch.path_for('[zzapi]\nzz-new = from-file-%(zz-count)d\nzz-count = -5\n')])
+                a = [M.enc(config['zzapi']['zz-new']), M.enc(config['zzapi']['zz-count'])]
+                config.updateFromDict(vars(parser.parse_args(['-Z', '-6', '--theme', 't%(zz-new)s'])))
+                obs = a + [M.enc(config['zzapi']['zz-new']), M.enc(config['zzapi']['zz-count']),
+                           M.enc(config['general']['theme']), M.enc(config['zzapi'].get('zz-none', 'dflt'))]
+                exp = [['str', 'from-file--5'], ['int', -5], ['str', 'from-file--6'], ['int', -6],
+                       ['str', 'tfrom-file--6'], ['str', 'dflt']]
+            elif what == 'missing_reference':
+                mcase = {'fam': 'single', 'synth': False,
+                         'files': [_flayer([{'o': ['general', 'theme'], 'v': ['s', 'a%(zz-no-such-option)sb']}])],
+                         'argv': [{'o': ['html5', 'extra-css'], 'v': ['L', [['ok', '%(zz-none)s']]]}]}
+                obs = observe(mcase, scratch)
+                exp = expected(mcase, 0)
+                if obs != exp:
+                    exp, obs = _diff(exp, obs)
+            elif what == 'load_config_files':
+                if os.path.exists('/usr/local/etc/plasTeXrc') or os.path.exists('~/.plasTeXrc'):
+                    exp = obs = 'skipped: a system configuration file exists on this machine'
+                else:
+                    config = defaultConfig(loadConfigFiles=True)
+                    m = M.Model(False)
+                    m.state[('logging', 'logging')] = dict(M.PACKAGED_RC_LOGGING)
+                    exp = {k: v for k, v in m.snapshot().items()       # renderer sections are added by client.main
+                           if k.split('/')[0] not in ('html5', 'mathjax-macros')}
+                    obs = snapshot(config)
+                    if exp != obs:
+                        exp, obs = _diff(exp, obs)
+            elif what == 'plastex_entry':
+                cap = []
+                orig_run, orig_argv = cl.run, sys.argv
+                cl.run = lambda filename, config: cap.append((filename, config))
+                sys.argv = ['plastex', '-c', scratch.path_for('[files]\nsplit-level = 7\n'), '--theme', 'zz', 'doc.tex']
+                try:
+                    cl.plastex()
+                finally:
+                    cl.run, sys.argv = orig_run, orig_argv
+                exp = ['doc.tex', ['str', 'zz'], ['int', 7]]
+                obs = [cap[0][0], M.enc(cap[0][1]['general']['theme']), M.enc(cap[0][1]['files']['split-level'])] \
+                    if len(cap) == 1 else 'run called %d times' % len(cap)
+            elif what == 'read_string_and_list':
+                f1 = scratch.path_for('[files]\nsplit-level = 7\n[general]\nplugins = a\n')
+                f2 = scratch.path_for('[files]\nsplit-level = 8\n[general]\nplugins = b\n')
+                c1, c2 = defaultConfig(), defaultConfig()
+                c1.read(f1)
+                c1.read(f2)
+                c2.read([f1, scratch.missing(0), f2])
+                obs = [M.enc(c[sec][key]) for c in (c1, c2) for sec, key in (('files', 'split-level'), ('general', 'plugins'))]
+                exp = [['int', 8], ['list', [['str', 'a'], ['str', 'b']]]] * 2
+    except core.Timeout:
+        obs = 'timeout'
+    except SystemExit:
+        obs = 'raises:SystemExit'
+    except Exception as e:
+        obs = 'raises:%s: %s' % (type(e).__name__, str(e)[:120])
+    finally:
+        sys.stdout, sys.stderr = so, se
+        scratch.close()
+    LAST_OBS = obs
+    if exp == obs:
+        return 'ok', [], exp, obs, ''
+    if isinstance(exp, dict) and isinstance(obs, dict) and set(exp) != set() and len(exp) > 20:
+        exp, obs = _diff(exp, obs)
+    return 'violation', [], exp, obs, 'public configuration API case %r' % what
+
+
+GENS = {'dictws': gen_dictws, 'syntax': gen_syntax, 'reject': gen_reject, 'api': gen_api, 'reread': gen_reread, 'single': gen_single, 'shapes': gen_shapes, 'pairs': gen_pairs, 'interp': gen_interp,
         'chain': gen_chain, 'doc': gen_doc}
 
 
@@ -770,6 +1060,8 @@ def _features(case, rep):
                 rep.count('file_bool_false_spelling')
             if v[0] == 'd' and v[2] == 'routed':
                 rep.count('dict_routed_lines')
+            if v[0] == 'd' and len(v) > 3 and any(v[3]):
+                rep.count('dict_inline_blank_placements')
             if v[0] in ('s', 'S', 'l', 'L') and '%(' in json.dumps(v):
                 rep.count('interpolation_refs')
             if v[0] == 'S' and any(x in ('', 0, 0.0) for x in v[1]):
@@ -785,7 +1077,7 @@ def run_block(block):
     try:
         for case in GENS[fam](block[:-1], tier):
             v, fids, exp, obs_d, detail = judge(case, scratch)
-            if fam == 'doc':
+            if fam in ('doc', 'api'):
                 outcome = (json.dumps(case, sort_keys=True), json.dumps(obs_d, sort_keys=True))
                 nontrivial = True
             elif fam == 'reread':
@@ -799,16 +1091,18 @@ def run_block(block):
                 nontrivial = _sets_something(case)
                 outcome = None
             key = json.dumps(case, sort_keys=True)
-            if fam not in ('doc', 'reread'):
+            if fam not in ('doc', 'api', 'reread'):
                 outcome = json.dumps(LAST_OBS, sort_keys=True)
                 _features(case, rep)
+                if fam == 'reject' and isinstance(LAST_OBS, str):
+                    rep.count('rejected_' + LAST_OBS.split(':')[-1])
             rep.case(key=key, nontrivial=nontrivial, outcome=outcome)
             rep.count('fam_' + fam)
             if v == 'ok':
                 if fam == 'reread':
                     if len(case['h']) >= 3 and len(rep.samples) < 1 and block[1] == 0 and block[2] == 1:
                         rep.sample({'family': fam, 'history': print_history(case)})
-                elif nontrivial and len(rep.samples) < 1 and fam != 'doc' and len(case.get('files', [])) + len(case['argv']) >= 2:
+                elif nontrivial and len(rep.samples) < 1 and fam not in ('doc', 'api') and len(case.get('files', [])) + len(case['argv']) >= 2:
                     argv, texts = print_case(case, scratch)
                     rep.sample({'family': fam, 'argv': [a.replace(scratch.dir, '<dir>') for a in argv],
                                 'files': texts})
@@ -823,7 +1117,7 @@ def run_block(block):
 
 
 def run(tier, seed, rep):
-    blocks = [('doc', tier), ('chain', tier)]
+    blocks = [('doc', tier), ('chain', tier), ('api', tier)]
     nreal = len(M.SCHEMA)
     nall = len(M.schema(True))
     for synth, rng in ((False, range(nreal)), (True, range(nreal, nall))):
@@ -832,6 +1126,10 @@ def run(tier, seed, rep):
             for first in range(1 + len(file_menu(row, tier, synth))):
                 blocks.append(('single', synth, oi, first, tier))
             blocks.append(('shapes', synth, oi, tier))
+            blocks.append(('syntax', synth, oi, tier))
+            blocks.append(('reject', synth, oi, tier))
+            if row[2].startswith('dict') or row[2] == 'links':
+                blocks.append(('dictws', synth, oi, tier))
             blocks.append(('pairs', synth, oi, tier))
             if row[2] in ('str', 'list'):
                 blocks.append(('interp', synth, oi, tier))
@@ -852,9 +1150,11 @@ def run(tier, seed, rep):
         'pair_sources': 2 if tier == 'quick' else 3,
         'interp_templates': 2 if tier == 'quick' else 3,
         'reread_step_menu': nmenu, 'reread_max_history': maxlen,
+        'dictws_blank_placements': 4 if tier == 'quick' else 6, 'dictws_blank_kinds': len(dictws_blanks(tier)),
     }
     return {'exhaustive': True, 'bounds': bounds, 'blocks': len(blocks),
             'floors': {'evaluations': 50000, 'cli_over_file': 1000, 'file_over_file': 1000,
                        'file_bool_false_spelling': 1000, 'dict_routed_lines': 100, 'interpolation_refs': 1000,
                        'list_from_several_sources': 100, 'cli_falsy_value': 100, 'unknown_key_lines': 100,
-                       'fam_reread': 1000, 'reread_histories_with_stale_cache_chance': 200}}
+                       'fam_reread': 1000, 'fam_dictws': 1000, 'fam_syntax': 500, 'fam_reject': 500,
+                       'fam_api': len(API_CASES), 'dict_inline_blank_placements': 1000, 'reread_histories_with_stale_cache_chance': 200}}
